@@ -1,6 +1,7 @@
 /- line-protocol handler for model "arith" (C12): same ops and canonical output as
    harness/inproc/h_arith.c and h_arith_h2.c -/
 import LtVerif.Model.Arith
+import LtVerif.Model.ArithRange
 namespace Driver
 open LtVerif LtVerif.B LtVerif.Arith
 
@@ -55,6 +56,11 @@ private def bufOps (ops : List String) : String :=
   let (_, outs) := ops.foldl step (some { used := 0, size := 0 }, [])
   String.intercalate " " outs
 
+private def rngOut (len : Int) (s : Bytes) : String :=
+  match Rg.parse (s.takeWhile (· ≠ 0)) len with
+  | .ub w => ubStr w
+  | .ok rs => String.intercalate " " (toString rs.length :: rs.map fun r => toString r.1 ++ "-" ++ toString r.2)
+
 private def gwOut (maxField : Nat) (reads : List Bytes) : String :=
   let r := gwRun maxField reads
   match r.fail with
@@ -68,21 +74,36 @@ private def gwOut (maxField : Nat) (reads : List Bytes) : String :=
       " done=" ++ (if r.st.done then "1" else "0") ++ " out=" ++ toString r.st.out ++
       " maxh=" ++ toString r.maxh ++ " maxp=" ++ toString r.maxp
 
-private def h2cOut (fsize : Nat) (buf : Bytes) : String :=
+private def fnv8 (bs : Bytes) : Nat :=
+  bs.foldl (fun h b => ((h ^^^ b.toNat) * 16777619) % 4294967296) 2166136261
+
+private def h1Out (ms mf : Nat) (reads : List Bytes) : String :=
+  let r := h1Run ms mf reads
+  match r.fail with
+  | some f =>
+    if f.startsWith "ub:" then ubStr (f.drop 3).toString else
+    f ++ " n=" ++ toString r.n ++ " maxrest=" ++ toString r.maxrest
+  | none =>
+    "ok te=" ++ toString r.st.te ++ " in=" ++ toString r.st.bytesIn ++ " rest=" ++ toString r.st.q.length ++
+      " len=" ++ (if r.st.done then toString r.st.bytesIn else "-1") ++ " ka=" ++ (if r.st.ka then "1" else "0") ++
+      " n=" ++ toString r.n ++ " maxrest=" ++ toString r.maxrest
+
+private def h2cOut (_fsize : Nat) (buf : Bytes) : String :=
+  let fsize := Extracted.h2RecvFrameMax
   if buf.length < 9 || 9 + u24 buf 0 > buf.length then "bad-op" else
   let flen0 := u24 buf 0
   let padded := has (buf.getD 4 0) flagPadded
   let padOrig : String := if padded && flen0 ≠ 0 then toString (buf.getD 9 0).toNat else "-1"
-  let line (ret flen : Nat) (pad ga : String) (clen : Nat) : String :=
+  let line (ret flen : Nat) (pad ga : String) (out : Bytes) : String :=
     "ret=" ++ toString ret ++ " flen=" ++ toString flen ++ " pad=" ++ pad ++ " goaway=" ++ ga ++
-      " clen=" ++ toString clen
+      " clen=" ++ toString out.length ++ " bytes=" ++ toString (fnv8 out)
   match h2Cont fsize buf with
   | .ub w => ubStr w
-  | .incomplete need calm => line need flen0 padOrig (if calm then "-1" else "-") buf.length
-  | .goaway code => line 0 flen0 padOrig (toString code) buf.length
+  | .incomplete need calm => line need flen0 padOrig (if calm then "-1" else "-") buf
+  | .goaway code => line 0 flen0 padOrig (toString code) buf
   | .merged m out calm =>
     line m (u24 out 0) (if padded && flen0 ≠ 0 then toString (out.getD 9 0).toNat else "-1")
-      (if calm then "-1" else "-") out.length
+      (if calm then "-1" else "-") out
 
 private def h2dOut (frame : Bytes) : String :=
   if frame.length < 9 then "bad-op" else
@@ -123,9 +144,22 @@ def arithLine : List String → String
     match mf.toNat?, segs.mapM ofHex with
     | some m, some bs => if bs.isEmpty then "bad-op" else gwOut m bs
     | _, _ => "bad-op"
+  | ["h1d", ms, mf, pre, unit, cnt, suf] =>
+    match ms.toNat?, mf.toNat?, ofHex pre, ofHex unit, cnt.toNat?, ofHex suf with
+    | some a, some m, some p, some u, some c, some sfx =>
+      h1Out a m (([p] ++ (if u.isEmpty then [] else List.replicate c u) ++ [sfx]).filter (!·.isEmpty))
+    | _, _, _, _, _, _ => "bad-op"
+  | "h1s" :: ms :: mf :: segs =>
+    match ms.toNat?, mf.toNat?, segs.mapM ofHex with
+    | some a, some m, some bs => if bs.isEmpty then "bad-op" else h1Out a m bs
+    | _, _, _ => "bad-op"
   | ["hoff", i0, h] =>
     match i0.toNat?, ofHex h with
     | some i, some b => hoffOut i b
+    | _, _ => "bad-op"
+  | ["rng", len, h] =>
+    match len.toNat?, ofHex h with
+    | some l, some s => if l = 0 then "bad-op" else rngOut (l : Int) s
     | _, _ => "bad-op"
   | "buf" :: ops => if ops.isEmpty then "bad-op" else bufOps ops
   | ["ckr", n, x, e] =>
